@@ -372,6 +372,17 @@ theorem lanczos_step_no_panic_release (k : Nat) (cols : List (List Nat)) (ay : L
   lanczosStep_release_ok hM hay h
 
 open Ymq.Gf2Lanczos Ymq.Gf2 in
+/-- the state built from the block returned by `genblock` (lines 141-158: `ay = A·Y`, inverse of its Gram
+matrix, first reduction of `Y`) is well formed whenever the initial computation returns, in either
+profile: with `lanczos_step_no_panic_release` every iteration of a release run is free of panics. (That
+the initial `g.inverse().unwrap()` succeeds is `genblock`'s acceptance test, rank 64, with `inverse_some_iff`.) -/
+theorem lanczos_init_well_formed (k : Nat) (cols : List (List Nat)) (dbg : Bool) (y0 ay : List Nat) (st : LState)
+    (hM : MatOK k cols) (hy0 : BlockOK cols.length y0)
+    (h : lanczosInit dbg (qsOptimize k cols) y0 = some (st, ay)) :
+    WFL cols.length st ∧ BlockOK cols.length ay :=
+  lanczosInit_wf hM dbg hy0 h
+
+open Ymq.Gf2Lanczos Ymq.Gf2 in
 /-- Montgomery's invariant as the code tests it, `AOrth b w x`: `&w * &mul_aab(b, &x) == SmallMat::default()`,
 i.e. `wᵗ·A·x = 0` with `A = BᵗB`. When an iteration of the CHECKED profile returns (`.continue`), the new
 block `W` (last of `ws`: the direction masked by the selection) is A-orthogonal to the updated `Y`, the
